@@ -212,7 +212,10 @@ theorem destroyRep_succ_some (k r : Nat) (s : State) (R : Rep) (f : Fun)
     (hR : s.reps r = some R) (hf : R.fn = some f) :
     destroyRep (k + 1) r s =
       match f.owns with
-      | none => dropFnF r R f s
+      | none =>
+        (match f.ownsC with
+         | none => dropFnF r R f s
+         | some c => if ownedCBy (dropFnF r R f s) c then dropFnF r R f s else killConn c (dropFnF r R f s))
       | some h =>
         if ownedBy (dropFnF r R f s) h then dropFnF r R f s else
         match (dropFnF r R f s).slots h with
@@ -255,6 +258,15 @@ theorem mu_dropFn (r R f s) (hb : RepBound s) (hR : s.reps r = some R) (hf : R.f
   · simp [hasFn_dropFn _ _ _ _ _ hR]
   · intro x hx; simp [hasFn_dropFn _ _ _ _ _ hR, hx]
 
+theorem pres_killConn (c : Nat) (s : State) : Pres s (killConn c s) := by
+  unfold killConn slotRemCb
+  refine Pres.trans ?_ (pres_setConn _ _ _)
+  split
+  · exact Pres.refl _
+  · split
+    · exact Pres.refl _
+    · exact pres_modRep _ _ _
+
 theorem destroyRep_ok : ∀ (k r : Nat) (s : State), RepBound s → mu s < k →
     RepBound (destroyRep k r s) ∧ (destroyRep k r s).err = s.err
   | 0, _, _, _, h => by omega
@@ -271,7 +283,11 @@ theorem destroyRep_ok : ∀ (k r : Nat) (s : State), RepBound s → mu s < k →
         have hd := pres_dropFn r R f s hR hb
         have hmu := mu_dropFn r R f s hb hR hf
         split
-        · exact hd
+        · split
+          · exact hd
+          · split
+            · exact hd
+            · exact ((pres_dropFn r R f s hR).trans (pres_killConn _ _)) hb
         · split
           · exact hd
           · split
@@ -369,7 +385,8 @@ theorem pres_deleteRepWithCheck (v : Nat) (s : State) : Pres s (deleteRepWithChe
   · exact Pres.refl _
   · simp only []
     split
-    · exact (pres_repDisconnect _ _).trans ((pres_modSlot _ _ _).trans (pres_deleteRep _ _))
+    · exact (pres_repDisconnect _ _).trans (((pres_modSlot _ _ _).trans (pres_weakNotify _ _)).trans
+        (pres_deleteRep _ _))
     · exact pres_repDisconnect _ _
 
 theorem pres_foldl {α : Type} (f : State → α → State) (hf : ∀ s a, Pres s (f s a)) :
@@ -392,7 +409,8 @@ theorem pres_exchangeRep (d n : Nat) (s : State) : Pres s (exchangeRep d n s) :=
   unfold exchangeRep
   split
   · exact pres_modSlot _ _ _
-  · exact ((pres_modRep _ _ _).trans (pres_modSlot _ _ _)).trans (pres_deleteRep _ _)
+  · exact (((pres_modRep _ _ _).trans (pres_modSlot _ _ _)).trans (pres_weakNotify _ _)).trans
+      (pres_deleteRep _ _)
 
 /-! ### allocation -/
 
